@@ -128,6 +128,7 @@ void dumpState(Scene &sc, long s) {
 // pointer that is not (by pointer comparison) in the live lists; ids of objects that were alive
 // before the transaction come from `before`.
 struct IdResolver {
+    std::set<unsigned> goneJunctions;          // junction ids the router reported as deleted: never used again by the client
     std::map<const void *, unsigned> before;
     std::set<const void *> liveConns, liveJuncs;
     std::map<const void *, int> tmp;
@@ -170,7 +171,11 @@ void dumpLists(IdResolver &ids, long s, const char *src, const HyperedgeNewAndDe
     printf("\nnd %ld %s newc", s, src);
     for (ConnRefList::const_iterator it = l.newConnectorList.begin(); it != l.newConnectorList.end(); ++it) printf(" %s", ids.conn(*it, false).c_str());
     printf("\nnd %ld %s delj", s, src);
-    for (JunctionRefList::const_iterator it = l.deletedJunctionList.begin(); it != l.deletedJunctionList.end(); ++it) printf(" %s", ids.junc(*it, true).c_str());
+    for (JunctionRefList::const_iterator it = l.deletedJunctionList.begin(); it != l.deletedJunctionList.end(); ++it) {
+        std::string t = ids.junc(*it, true);
+        printf(" %s", t.c_str());
+        if (t.compare(0, 3, "tmp") != 0) ids.goneJunctions.insert((unsigned) strtoul(t.c_str(), 0, 10));
+    }
     printf("\nnd %ld %s delc", s, src);
     for (ConnRefList::const_iterator it = l.deletedConnectorList.begin(); it != l.deletedConnectorList.end(); ++it) printf(" %s", ids.conn(*it, true).c_str());
     printf("\nnd %ld %s chgc", s, src);
@@ -179,7 +184,7 @@ void dumpLists(IdResolver &ids, long s, const char *src, const HyperedgeNewAndDe
 }
 
 // junctions reachable from the terminals of hyperedge h (for choosing operations only)
-std::vector<JunctionRef *> hedgeJunctions(Scene &sc, int h) {
+std::vector<JunctionRef *> hedgeJunctions(Scene &sc, int h, const std::set<unsigned> &gone) {
     Router *r = sc.router;
     std::set<std::string> seenT;
     for (size_t i = 0; i < sc.hedgeTerms[h].size(); ++i) seenT.insert(termKey(sc.terms[sc.hedgeTerms[h][i]]));
@@ -201,7 +206,8 @@ std::vector<JunctionRef *> hedgeJunctions(Scene &sc, int h) {
         }
     }
     // deterministic order: by id
-    std::vector<JunctionRef *> v(js.begin(), js.end());
+    std::vector<JunctionRef *> v;
+    for (std::set<JunctionRef *>::iterator it = js.begin(); it != js.end(); ++it) if (!gone.count((*it)->id())) v.push_back(*it);
     std::sort(v.begin(), v.end(), [](JunctionRef *a, JunctionRef *b) { return a->id() < b->id(); });
     return v;
 }
@@ -423,7 +429,7 @@ void runCase(const vh::Args &a, long k, int klass) {
                     // the client follows the router's advice: junctions go to their recommended positions
                     std::vector<JunctionRef *> js = liveJunctions(router);
                     for (size_t i = 0; i < js.size(); ++i) {
-                        if (js[i]->attachedConnectors().empty()) continue;     // zombie awaiting removal
+                        if (js[i]->attachedConnectors().empty() || ids.goneJunctions.count(js[i]->id())) continue;     // reported deleted, awaiting removal
                         Point p = js[i]->position(), q = js[i]->recommendedPosition();
                         if (p == q) continue;
                         printf("op %ld move-junction %u %s %s\n", s, js[i]->id(), vh::hx(q.x).c_str(), vh::hx(q.y).c_str());
@@ -433,7 +439,7 @@ void runCase(const vh::Args &a, long k, int klass) {
                 } else if (kind <= 7 && !registered) {
                     // full rerouting of one hyperedge, registered by one of its junctions
                     int h = (int) r.range(0, nh - 1);
-                    std::vector<JunctionRef *> js = hedgeJunctions(sc, h);
+                    std::vector<JunctionRef *> js = hedgeJunctions(sc, h, ids.goneJunctions);
                     if (js.empty()) { printf("op %ld skip-register %d\n", s, h); continue; }
                     JunctionRef *j = js[r.range(0, (long) js.size() - 1)];
                     printf("op %ld register-junction %d %u\n", s, h, j->id());
